@@ -9,7 +9,7 @@ import ast
 
 from vcheck import effects, rules
 from vcheck.cfg import NOTNONE
-from vcheck.core import PyRepo, AnalysisError, norm
+from vcheck.core import PyRepo, AnalysisError, norm, call_name, dotted_name, kwarg
 from vcheck.ctable import c_summaries
 
 MANIFEST = dict(
@@ -138,7 +138,7 @@ def run(chk):
     repo = PyRepo()
     chk.set_templates(repo, semantic=SEMANTIC)
     cs = c_summaries()
-    eng = effects.Effects(repo, cs)
+    eng = EffectsX(repo, cs)
     chk.explanation = MANIFEST["text"]
     chk.trusted = ["library semantics table (vcheck/effects.py)", "clang 14 AST", "SWIG naming convention", "CPython ast"]
     chk.floor = 150
@@ -186,6 +186,185 @@ def run(chk):
                             % (eng.unresolved, MAX_UNRESOLVED))
     # zero-expected rule needs a positive example that must fire on every run
     selfcheck(chk, eng)
+
+
+# ---- library semantics the engine table (vcheck/effects.py) does not list; added here through subclassing, the engine
+# itself is untouched.  Each entry is a documented property of the library call, not of this repository:
+#   * a library function that transforms its input and takes `copy=` works IN PLACE when copy is not true and returns
+#     the input object (numpy.nan_to_num(x, copy=False, ...));
+#   * keywords that grant the library permission to clobber an input (numpy median/percentile/quantile overwrite_input=,
+#     scipy.linalg / scipy.fft overwrite_a= overwrite_b= overwrite_x= ..., scipy.signal overwrite_data=);
+#   * ufunc.at(a, idx[, b]) is the unbuffered in-place form of the ufunc; numpy.put_along_axis writes argument 0;
+#   * further ufuncs and out-taking reductions whose positional `out` slot the engine does not know;
+#   * explicit calls of the in-place special methods (x.__setitem__, x.__iadd__, ...) and unbound ndarray mutators
+#     (numpy.ndarray.sort(x));
+#   * constructors that wrap an existing buffer without copying (numpy.ma arrays with copy off, as_strided,
+#     sliding_window_view, frombuffer, ndarray(buffer=...), memoryview).
+COPY_KW_INPLACE = {"nan_to_num": 1}       # function -> positional slot of `copy`; argument 0 is the array
+CLOBBER_KW = {"overwrite_input": 0, "overwrite_a": 0, "overwrite_x": 0, "overwrite_data": 0, "overwrite_ab": 0,
+              "overwrite_b": 1, "overwrite_y": 1}
+MORE_DEST0 = {"put_along_axis"}
+MORE_UNARY = {"arcsinh", "arccosh", "arctanh", "cbrt", "exp2", "invert", "bitwise_not", "isinf", "signbit", "positive",
+              "spacing", "fix", "conj", "isnat", "asin", "acos", "atan", "asinh", "acosh", "atanh", "bitwise_invert"}
+MORE_BINARY = {"logaddexp", "logaddexp2", "float_power", "pow", "nextafter", "heaviside", "fmax", "fmin", "bitwise_xor",
+               "logical_xor", "greater_equal", "less_equal", "matmul", "ldexp", "gcd", "lcm", "atan2",
+               "bitwise_left_shift", "bitwise_right_shift"}
+POSITIONAL_OUT = {"round": 2, "around": 2, "round_": 2, "cumsum": 3, "cumprod": 3, "nancumsum": 3, "nancumprod": 3,
+                  "take": 3, "compress": 3, "choose": 2, "dot": 2, "sum": 3, "prod": 3, "mean": 3, "std": 3, "var": 3,
+                  "amax": 2, "amin": 2, "max": 2, "min": 2, "outer": 2, "concatenate": 2}
+METHOD_POSITIONAL_OUT = {"clip": 2, "round": 1, "cumsum": 2, "cumprod": 2, "take": 2, "compress": 2, "dot": 1,
+                         "sum": 2, "prod": 2, "mean": 2, "std": 2, "var": 2, "max": 1, "min": 1, "choose": 1}
+INPLACE_DUNDERS = {"__setitem__", "__delitem__", "__iadd__", "__isub__", "__imul__", "__itruediv__", "__ifloordiv__",
+                   "__imod__", "__ipow__", "__iand__", "__ior__", "__ixor__", "__ilshift__", "__irshift__", "__imatmul__",
+                   "__idiv__", "__setslice__"}
+MA_WRAPPERS = {"array": 0, "masked_array": 0, "MaskedArray": 0, "asarray": 0, "asanyarray": 0, "masked_invalid": 0,
+               "masked_where": 1, "masked_equal": 0, "masked_values": 0, "masked_greater": 0, "masked_less": 0,
+               "masked_inside": 0, "masked_outside": 0, "masked_not_equal": 0, "masked_greater_equal": 0,
+               "masked_less_equal": 0, "masked_object": 0, "fix_invalid": 0, "getdata": 0}
+MA_NOCOPY_DEFAULT = {"array", "masked_array", "MaskedArray", "asarray", "asanyarray", "getdata"}
+BUFFER_WRAPPERS = {"as_strided", "sliding_window_view", "frombuffer"}
+
+
+class _AnalyseX(effects._Analyse):
+    """effects._Analyse plus the library semantics listed above"""
+
+    def _lib(self, c):
+        f = c.func
+        nm = call_name(c)
+        d = dotted_name(f) or ""
+        full = self.eng.repo.resolve_name(self.fi.module, d) if d else ""
+        return nm, full
+
+    def _copy_flag(self, c, nm):
+        """None when the call does not say `copy`; else the literal truth value or 'unknown'"""
+        cp = kwarg(c, "copy")
+        slot = COPY_KW_INPLACE[nm]
+        if cp is None and len(c.args) > slot and not any(isinstance(a, ast.Starred) for a in c.args[:slot + 1]):
+            cp = c.args[slot]
+        if cp is None:
+            return None, None
+        if isinstance(cp, ast.Constant):
+            return cp, bool(cp.value)
+        v = self._flagval(cp)
+        return cp, ("unknown" if v is None else v)
+
+    def call_value(self, c, env):
+        nm, full = self._lib(c)
+        f = c.func
+        if full.startswith("numpy.") and c.args and not isinstance(c.args[0], ast.Starred):
+            if nm in COPY_KW_INPLACE:
+                cp, v = self._copy_flag(c, nm)
+                if cp is not None and v is not True:
+                    return self._mark_arr(self.val(c.args[0], env)) | {FRESH_TAG}
+                return {FRESH_TAG}
+            if nm in MORE_UNARY | MORE_BINARY | set(POSITIONAL_OUT):
+                o = self._more_out(c, nm)
+                if o is not None:
+                    return self._mark_arr(self.val(o, env))
+            if full.startswith("numpy.ma.") and nm in MA_WRAPPERS and len(c.args) > MA_WRAPPERS[nm]:
+                cp = kwarg(c, "copy")
+                copies = (nm not in MA_NOCOPY_DEFAULT) if cp is None else (isinstance(cp, ast.Constant) and cp.value is True)
+                if not copies:
+                    return self._as_view(self.val(c.args[MA_WRAPPERS[nm]], env)) | {FRESH_TAG}
+                return {FRESH_TAG}
+            if nm in BUFFER_WRAPPERS:
+                return self._as_view(self.val(c.args[0], env)) | {FRESH_TAG}
+        if full == "numpy.ndarray":
+            b = kwarg(c, "buffer") or (c.args[2] if len(c.args) > 2 else None)
+            if b is not None:
+                return self._as_view(self.val(b, env)) | {FRESH_TAG}
+        if isinstance(f, ast.Name) and f.id == "memoryview" and full == "memoryview" and c.args:
+            return self._as_view(self.val(c.args[0], env), arr=False)
+        return super().call_value(c, env)
+
+    def _more_out(self, c, nm):
+        o = kwarg(c, "out")
+        if o is not None:
+            return o
+        if any(isinstance(a, ast.Starred) for a in c.args):
+            return None
+        if nm in MORE_UNARY and len(c.args) >= 2:
+            return c.args[1]
+        if nm in MORE_BINARY and len(c.args) >= 3:
+            return c.args[2]
+        slot = POSITIONAL_OUT.get(nm)
+        if slot is not None and len(c.args) > slot and not (isinstance(c.args[slot], ast.Constant) and c.args[slot].value is None):
+            return c.args[slot]
+        return None
+
+    def call_effects(self, c, env, node):
+        super().call_effects(c, env, node)
+        nm, full = self._lib(c)
+        f = c.func
+        is_np = full.startswith("numpy.")
+        arg0 = c.args[0] if c.args and not isinstance(c.args[0], ast.Starred) else None
+        if is_np and arg0 is not None:
+            if nm in COPY_KW_INPLACE:
+                cp, v = self._copy_flag(c, nm)
+                tags = self.val(arg0, env)
+                if cp is not None and v is not True:
+                    self.record(tags, c, "data", "numpy.%s(%s, copy=%s) works in place" % (nm, norm(arg0), norm(cp)))
+                elif cp is None and any(k.arg is None for k in c.keywords) and any(t[0] == "P" for t in tags):
+                    raise AnalysisError("effects: numpy.%s(%s, **...) at %s: cannot see whether copy= is switched off"
+                                        % (nm, norm(arg0), self.fi.where(c)))
+            if nm in MORE_DEST0:
+                self.record(self.val(arg0, env), c, "data", "numpy.%s(%s, ...)" % (nm, norm(arg0)))
+            if nm == "at" and full.count(".") >= 2 and \
+                    full.split(".")[-2] in effects.UNARY_UFUNCS | effects.BINARY_UFUNCS | MORE_UNARY | MORE_BINARY:
+                self.record(self.val(arg0, env), c, "data", "%s(%s, ...) (in-place ufunc.at)" % (full, norm(arg0)))
+            if nm in (MORE_UNARY | MORE_BINARY | set(POSITIONAL_OUT)) and kwarg(c, "out") is None:
+                o = self._more_out(c, nm)
+                if o is not None:
+                    self.record(self.val(o, env), c, "data", "numpy.%s(... out=%s)" % (nm, norm(o)))
+            if full.startswith("numpy.ndarray.") and nm in effects.ND_MUT_METHODS:
+                self.record(self.val(arg0, env), c, "data", "numpy.ndarray.%s(%s, ...)" % (nm, norm(arg0)))
+            if full == "numpy.ndarray.byteswap":
+                ip = c.args[1] if len(c.args) > 1 else kwarg(c, "inplace")
+                if ip is not None and self._flagval(ip) is not False:
+                    self.record(self.val(arg0, env), c, "data", "numpy.ndarray.byteswap(%s, %s)" % (norm(arg0), norm(ip)))
+        # permission-to-clobber keywords of library routines (any library; package callees are analysed by their own body)
+        ck = [k for k in c.keywords if k.arg in CLOBBER_KW]
+        if ck and self.eng.resolve(self.fi, c, self.localtypes) is None:
+            for k in ck:
+                if self._flagval(k.value) is False:
+                    continue
+                i = CLOBBER_KW[k.arg]
+                if i < len(c.args) and not any(isinstance(a, ast.Starred) for a in c.args[:i + 1]):
+                    self.record(self.val(c.args[i], env), c, "data", "%s(%s, %s=%s) lets the library overwrite its input" % (
+                        dotted_name(f) or nm, norm(c.args[i]), k.arg, norm(k.value)))
+        if isinstance(f, ast.Attribute) and not is_np:
+            recv = self.val(f.value, env)
+            if any(t[0] == "P" for t in recv):
+                if nm in INPLACE_DUNDERS:
+                    self.record(recv, c, "data", "%s.%s(...)" % (norm(f.value), nm))
+                slot = METHOD_POSITIONAL_OUT.get(nm)
+                if slot is not None and kwarg(c, "out") is None and len(c.args) > slot and \
+                        not any(isinstance(a, ast.Starred) for a in c.args) and \
+                        not (isinstance(c.args[slot], ast.Constant) and c.args[slot].value is None):
+                    self.record(self.val(c.args[slot], env), c, "data", "%s.%s(... out=%s)" % (
+                        norm(f.value), nm, norm(c.args[slot])))
+
+
+FRESH_TAG = effects.FRESH
+
+
+class EffectsX(effects.Effects):
+    """effects.Effects whose callee summaries are computed with the extended library table"""
+
+    def summary(self, fi, flags=None):
+        flags = dict(flags or {})
+        key = (fi.qualname, tuple(sorted((k, repr(v)) for k, v in flags.items())))
+        if key in self.memo:
+            return self.memo[key]
+        if key in self.stack:
+            return effects.Summary()
+        self.stack.append(key)
+        try:
+            s = _AnalyseX(self, fi, flags).run()
+        finally:
+            self.stack.pop()
+        self.memo[key] = s
+        return s
 
 
 def public_func(repo, q):
@@ -236,7 +415,7 @@ def _module_level_import(m, name):
 
 def analyse_with_arrays(eng, fi, params, flags):
     """top-level analysis: the scope table says these parameters are arrays"""
-    an = effects._Analyse(eng, fi, dict(flags))
+    an = _AnalyseX(eng, fi, dict(flags))
     orig_run = an.run
     arrs = set(params)
     cfg = an.cfg
@@ -248,7 +427,7 @@ def analyse_with_arrays(eng, fi, params, flags):
 
 
 def analyse_attr_root(eng, fi, attr):
-    an = effects._Analyse(eng, fi, {})
+    an = _AnalyseX(eng, fi, {})
     init = {p: {("P", p, "same", False)} for p in an.params}
     init[attr] = {("P", attr, "same", True)}
     return _run_with_init(an, init)
@@ -314,6 +493,33 @@ def bad_callee(a):
     helper(a)
 def helper(z):
     z.byteswap(True)
+def bad_nan_to_num(a):
+    t = np.nan_to_num(np.asarray(a), copy=False, nan=0.0)[::2]
+def bad_nan_to_num_then_store(a):
+    t = np.nan_to_num(a, False)
+    t[0] = 1
+def bad_overwrite_input(a):
+    m = np.median(np.atleast_1d(a), overwrite_input=True)
+def bad_ufunc_at(a):
+    np.add.at(a, [0], 1)
+def bad_put_along_axis(a):
+    np.put_along_axis(a.reshape(1, -1), np.array([[0]]), 0.0, 1)
+def bad_dunder(a):
+    a.view(np.ndarray).__setitem__(0, 1)
+def bad_positional_out(a):
+    np.cumsum(a, None, None, a)
+def bad_ma_wrapper(a):
+    m = np.ma.masked_invalid(a, copy=False)
+    m[0] = 0
+def good_library_copies(a):
+    t = np.nan_to_num(a)
+    t[0] = 1
+    u = np.nan_to_num(a, copy=True, nan=0.0)
+    u += 1
+    m = np.median(a, overwrite_input=False)
+    c = np.cumsum(a, None, None, None)
+    w = np.ma.masked_invalid(a)
+    w[0] = 0
 def good_copy(a):
     b = np.array(a, copy=True)
     b[0] = 1
@@ -333,8 +539,11 @@ def selfcheck(chk, eng):
         with open(os.path.join(d, "esutil", "__init__.py"), "w") as f:
             f.write(POSITIVE)
         r2 = PyRepo(d)
-        e2 = effects.Effects(r2, {})
-        exp = {"bad_view_store": True, "bad_ufunc_out": True, "bad_inplace_op": True, "bad_callee": True, "good_copy": False}
+        e2 = EffectsX(r2, {})
+        exp = {"bad_view_store": True, "bad_ufunc_out": True, "bad_inplace_op": True, "bad_callee": True, "good_copy": False,
+               "bad_nan_to_num": True, "bad_nan_to_num_then_store": True, "bad_overwrite_input": True, "bad_ufunc_at": True,
+               "bad_put_along_axis": True, "bad_dunder": True, "bad_positional_out": True, "bad_ma_wrapper": True,
+               "good_library_copies": False}
         for fn, want in exp.items():
             fi = r2.func("esutil." + fn)
             s = analyse_with_arrays(e2, fi, ["a"], {})
